@@ -75,8 +75,40 @@ def result_size(v, depth=0):
     return 1
 
 
+_CANARY = {}
+
+
+def canary(ctx, after):
+    """A hostile decode may cost its sender its connection and nothing else: an ordinary message (of another
+    connection of the same process) must still decode afterwards, to the same value."""
+    if not _CANARY:
+        body = [[('k', Variant('(is)', [5, 'y'])), ('l', Variant('as', ['a', 'b']))], [7, 'z'], [[1, 2], [3]]]
+        _CANARY['raw'] = RM.build(RM.METHOD_CALL, 9, {'path': '/a', 'member': 'M', 'interface': 'a.b'}, 'a{sv}(is)aai', body)
+        _CANARY['body'] = RM.parse(_CANARY['raw'], strict=True).body
+    ctx.count('canary_decodes')
+    try:
+        m = MSG.parseMessage(_CANARY['raw'], [])
+        ok = R.plain_eq(m.body, _CANARY['body'])
+        err = None if ok else 'decoded %r' % (m.body,)
+    except Exception as e:
+        err = 'raised %r' % e
+    if err:
+        ctx.report('decoder-state-poisoned', 'after hostile input an ordinary, well-formed message no longer decodes (%s): '
+                   'the damage is not confined to the sender of the hostile bytes' % err, after, {'kind': 'canary'})
+        return False
+    return True
+
+
 def decode_one(ctx, data, klass, case, how='parse', sig=None):
     """Run one decode of hostile bytes under the meter and judge it."""
+    r_ = _decode_one(ctx, data, klass, case, how, sig)
+    if ctx.counters.get('evaluations', 0) % 64 == 0 and not _CANARY.get('dead'):
+        if not canary(ctx, {'class': klass, 'how': how, 'last_hostile_bytes': data if len(data) <= 2048 else data[:2048]}):
+            _CANARY['dead'] = True
+    return r_
+
+
+def _decode_one(ctx, data, klass, case, how='parse', sig=None):
     lim = budget(data, sig)
     nin = len(data) + len(sig or '')
     ctx.count('evaluations')
@@ -356,6 +388,10 @@ def bus_forwarding(ctx, rng, per_message):
     net = busnet.Net()
     victim = net.raw_client()
     attacker = net.raw_client()
+    if not victim.unique or not attacker.unique:
+        ctx.report('bus-unusable', 'scripted clients cannot attach to the built-in bus (Hello unanswered) after the hostile '
+                   'decodes of this run', {'victim': victim.unique, 'attacker': attacker.unique}, {'kind': 'busfwd'})
+        return
     bodies = [('s', ['hello world']), ('as', [['a', 'bc', 'def']]), ('a{sv}', [[('k', Variant('u', 7)), ('l', Variant('s', 'x'))]]),
               ('v', [Variant('(is)', [5, 'y'])]), ('ay', [list(range(20))]), ('sd', ['x', 1.5])]
     for sig, body in bodies:
